@@ -274,13 +274,20 @@ Definition C15_no_call_left_hanging (ops : list op) : Prop :=
     | _ => True
     end.
 
+(* the hypothesis is a predicate on the op list alone (Portal.no_land_after: no ThreadLand k / CancelLand k occurs after
+   a LoopEnd in ops); it implies the state-level predicate of the known finding to be false *)
+Theorem C15_portal_no_land_after_loop_end_sound : forall ops,
+  no_land_after_loop_end ops = true -> landed_after_loop_end ops = false.
+Proof. exact portal_no_land_after_loop_end_sound. Qed.
+Print Assumptions C15_portal_no_land_after_loop_end_sound.
+
 Theorem C15_portal_no_call_left_hanging : forall ops,
-  no_land_after_loop_end ops = true -> C15_no_call_left_hanging ops.
+  no_land_after false ops = true -> C15_no_call_left_hanging ops.
 Proof. exact portal_no_call_left_hanging. Qed.
 Print Assumptions C15_portal_no_call_left_hanging.
 
 Theorem C15_portal_landed_after_loop_end_refuted :
-  exists ops, landed_after_loop_end ops = true /\ ~ C15_no_call_left_hanging ops /\
+  exists ops, no_land_after_loop_end ops = false /\ landed_after_loop_end ops = true /\ ~ C15_no_call_left_hanging ops /\
     let s := final step (init true true true) ops in
     c_phase (calls s 0) = PLost /\ c_execs (calls s 0) = 0 /\ c_fut (calls s 0) = CPending /\
     forall ops', calls (final step s ops') 0 = calls s 0.
